@@ -38,6 +38,7 @@ type Clause struct {
 type LoopSpec struct {
 	Invariants []Clause
 	Decreases  []Clause
+	Steps      []Clause // checked at every back edge; startTrace(n) is the trace at the head of loop n in the current iteration
 }
 
 type GhostParam struct {
@@ -334,6 +335,8 @@ func parseContractLines(lines []rawLine, fname, pkgPath string, cs *ContractSet)
 				ls.Invariants = append(ls.Invariants, c)
 			case "decreases":
 				ls.Decreases = append(ls.Decreases, c)
+			case "step":
+				ls.Steps = append(ls.Steps, c)
 			default:
 				return fmt.Errorf("%s:%d: unknown loop clause %s", fname, s.line, kind)
 			}
